@@ -539,6 +539,8 @@ fn expect_named<C: Suite>(
     let dmin = *dset.iter().next().unwrap();
     let runs: Vec<(&str, Result<frost::Signature<C>, frost::Error<C>>)> = vec![
         ("aggregate", frost_rerandomized::aggregate(pkg, shares, pk, params)),
+        // the ciphersuite crate's own wrapper where one is compiled (ristretto255); same expectation as the default entry point
+        ("aggregate", C::w_rr_aggregate(pkg, shares, pk, params)),
         ("Disabled", frost_rerandomized::aggregate_custom(pkg, shares, pk, CheaterDetection::Disabled, params)),
         ("FirstCheater", frost_rerandomized::aggregate_custom(pkg, shares, pk, CheaterDetection::FirstCheater, params)),
         ("AllCheaters", frost_rerandomized::aggregate_custom(pkg, shares, pk, CheaterDetection::AllCheaters, params)),
